@@ -933,8 +933,10 @@ impl rustc_driver::Callbacks for Cb {
                     let env = TypingEnv::post_analysis(tcx, did);
                     // an associated const that a trait only declares (`const CLEAR: Self;`) has no
                     // body to evaluate - asking for one is an internal compiler error
-                    let has_value = !matches!(tcx.def_kind(did), DefKind::AssocConst { .. })
-                        || tcx.defaultness(did).has_value();
+                    // (the defaultness query itself is only defined for items of a trait)
+                    let in_trait = matches!(tcx.def_kind(did), DefKind::AssocConst { .. })
+                        && matches!(tcx.def_kind(tcx.parent(did)), DefKind::Trait);
+                    let has_value = !in_trait || tcx.defaultness(did).has_value();
                     let val = std::panic::catch_unwind(std::panic::AssertUnwindSafe(|| {
                         if has_value { tcx.const_eval_poly(did) } else { Err(rustc_middle::mir::interpret::ErrorHandled::TooGeneric(tcx.def_span(did))) }
                     }));
